@@ -302,7 +302,7 @@ std::vector<Op> history(Rng& r, const HistCfg& c) {
             if (base < 0 || src < 0) continue;
             int dst = r.range(0, c.nslots - 1);
             if (dst == base || dst == src) { dst = (dst + 1) % c.nslots; if (dst == base || dst == src) dst = (dst + 1) % c.nslots; }
-            o.kind = OP_REMOVEBASE; o.a = dst; o.b = src; o.c = base; o.opt = r.chance(350) ? 1 : 0; o.entry = c.entries ? r.range(0, 1) : 1;
+            o.kind = OP_REMOVEBASE; o.a = dst; o.b = src; o.c = base; o.opt = r.chance(350) ? 1 : 0; if (r.chance(60)) o.opt = r.pick(std::vector<int>{2, -1, 255, 256}); o.entry = c.entries ? r.range(0, 1) : 1;
             o.mgr = c.nmgrs > 1 ? r.range(0, c.nmgrs - 1) : 0;
             absolute[(size_t)dst] = 0; text_of[(size_t)dst] = text_of[(size_t)src];
             if (std::find(valid.begin(), valid.end(), dst) == valid.end()) valid.push_back(dst);
